@@ -43,6 +43,7 @@ class Shard:
         self.crashes = []      # dict(kind, site, idx, excerpt)
         self.inconclusive = [] # reasons
         self.fp_files = []
+        self.digests = []      # (key, value, per_config, config, index)
         self.wall = 0.0
         self.procs = 0
 
@@ -87,6 +88,9 @@ def run_shard(prop, seed, sh, tmpdir):
                 elif t == "summary":
                     got_summary = True
                     sh.summaries.append(d)
+                elif t == "digest":
+                    cfg = f"cpus={job.get('cpus')}" if eng != "miri" else f"miri_cpus={job.get('miri_cpus')}"
+                    sh.digests.append((d["k"], d["v"], d["per_config"], cfg, d["i"], eng, job))
                 elif t in ("viol", "known", "harness_error"):
                     d["engine"] = eng
                     d["job"] = job
@@ -256,6 +260,26 @@ def finish(prop, tier, seed, plan, shards, inconclusive, t0, tmpdir):
             pe["reports"] += 1
             viols.append(dict(t="viol", i=c.get("idx"), idx=c.get("idx"), lo=c.get("lo"), hi=c.get("hi"), kind=c["kind"] + (" at " + c["site"] if c["site"] else ""),
                               detail=c["excerpt"], desc="", engine=c["engine"], job=c["job"], site=c["site"]))
+    # results of the same case under different configurations / repetitions
+    groups = {}
+    n_dig = 0
+    for sh in shards:
+        for (k, v, pc, cfg, i, eng, job) in sh.digests:
+            n_dig += 1
+            g = groups.setdefault((k, cfg if pc else None), {})
+            e = g.setdefault(v, [(i, eng, job, cfg), 0])
+            e[1] += 1
+    for (key, g) in [(key, g) for key, g in groups.items() if len(g) > 1][:20]:
+        (k, cfg) = key
+        reps = [e[0] for e in g.values()]
+        i, eng, job, c0 = reps[0]
+        others = ", ".join(f"case {x[0]} under {x[3]} ({x[1]})" for x in reps[1:4])
+        viols.append(dict(t="viol", i=i, kind="result-differs-between-" + ("repetitions-in-one-configuration" if cfg else "configurations"),
+                          detail=f"the same inputs (digest key {k}) gave {len(g)} different results: case {i} under {c0} ({eng}) vs {others}", desc="", engine=eng, job=job))
+    if n_dig:
+        feats["result_digests_recorded"] = n_dig
+        feats["result_digest_groups"] = len(groups)
+        feats["result_digest_groups_observed_2+_times"] = sum(1 for g in groups.values() if sum(e[1] for e in g.values()) >= 2)
     for h in harness_errors[:3]:
         inconclusive.append(f"harness error in case {h.get('i')}: {h.get('msg')}")
     distinct = len(read_fps(fp_files))
